@@ -119,7 +119,10 @@ fn deinterpolate_in(ts: TokenStream, allow_drop: bool) -> TokenStream {
                         || prev_dropped
                         || matches!(&toks[i - 1], TokenTree::Group(g) if g.delimiter() == Delimiter::Brace)
                         || matches!(&toks[i - 1], TokenTree::Punct(p) if p.as_char() == ';');
-                    let next_ok = next.is_none() || is_interp_at(i + 2);
+                    // a splice in statement position that is followed by the rest of the block (`#lookup None`, `#prelude let x = ..`)
+                    let next_starts_stmt = matches!(next, Some(TokenTree::Ident(k)) if !["as", "in", "else", "where", "for", "if", "match"].contains(&k.to_string().as_str()))
+                        || matches!(next, Some(TokenTree::Literal(_)));
+                    let next_ok = next.is_none() || is_interp_at(i + 2) || next_starts_stmt;
                     if vis_pos {
                         out.extend(std::iter::once(TokenTree::Ident(proc_macro2::Ident::new("pub", id.span()))));
                         prev_dropped = false;
